@@ -37,6 +37,29 @@ def classify_exc(real, model_r):
     return None
 
 
+def probe_format(fmt, strings, out, stats):
+    """registered format `fmt`: a string is accepted or refused with the validation error, whatever it is made of"""
+    from statham.schema.elements import Element, String
+    from statham.schema.exceptions import ValidationError
+    for build in (lambda: String(format=fmt), lambda: Element(format=fmt)):
+        el = build()
+        for s in strings:
+            if core.has_surrogate(s):
+                continue
+            case = {"schema": {"format": fmt, **({"type": "string"} if isinstance(el, String) else {})}, "value": s}
+            out.note_case(case, True)
+            try:
+                with core.warnings.catch_warnings():
+                    core.warnings.simplefilter("ignore")
+                    el(s)
+                stats["format-probe-ok"] = stats.get("format-probe-ok", 0) + 1
+            except ValidationError:
+                stats["format-probe-reject"] = stats.get("format-probe-reject", 0) + 1
+            except Exception as exc:  # noqa: BLE001
+                out.failures.append({"case": case, "what": f"format {fmt!r} on {s!r}: {type(exc).__name__}: {exc} escaped instead of the validation error", "finding": None})
+                return
+
+
 def check_case(drv, schema, values, out, stats):
     try:
         tables = core.schema_tables(schema, values)
@@ -132,6 +155,16 @@ def run(ctx, scale=1.0):
         for s in ("9" * 20, "1" * 400, "0000-00-00", "\u0000", "２０２０-01-01"):
             check_case(drv, {"format": "date-time"}, [s], out, stats)
             check_case(drv, {"format": "uuid"}, [s], out, stats)
+        # every format the library registers (read from the live registry, so newly added built-ins are covered), fed strings
+        # made of characters that the usual `str` predicates and the usual converters disagree about
+        from statham.schema.validation.format import format_checker
+        odd = ["²", "①", "٣", "５", "¼", "Ⅷ", "௧", "𝟙", "߁", "\u0000", "é", " ", "-", "+", "e", "_", "１２"]
+        templates = ["{d}", "10.0.0.{d}", "{d}.{d}.{d}.{d}", "1{d}.2.3.4", "::{d}", "fe80::{d}:1", "a@{d}.com", "{d}@b.c", "{d}{d}{d}{d}-{d}{d}-{d}{d}",
+                     "2020-{d}1-01T00:00:00Z", "2020-01-01T0{d}:00:00Z", "http://{d}/", "{d}" * 32, "123e4567-e89b-12d3-a456-42661417400{d}", "P{d}D", "#/{d}", "{d}:{d}"]
+        for fmt in sorted(getattr(format_checker, "_callable_register", {})):
+            strings = [t.replace("{d}", d) for t in templates for d in odd] + UNICODE + ["", "0", "1.2.3", "1.2.3.4", "256.1.1.1", "01.1.1.1"]
+            for chunk in range(0, len(strings), 40):
+                probe_format(fmt, strings[chunk:chunk + 40], out, stats)
     finally:
         drv.close()
     out.stats = stats
